@@ -269,6 +269,19 @@ theorem memrev_rotate (s : List Byte) (pos pre len : Nat) (hp : pre ≤ len) (h 
   let ⟨s', he, hl, hs⟩ := memrev_spec s pos pre len hp h
   ⟨s', he, hl, hs⟩
 
+/-- C++ `io::queue::push` (storage grows on demand): the bytes are appended; only an empty push onto a
+    queue without a free byte reports failure, and then nothing changed -/
+theorem cxx_push_appends (r : Ring) (h : r.WF) (bytes : List Byte) :
+    ∃ r' b, r.xpush bytes = .ok (r', b) ∧ r'.WF ∧
+      (b = true → r'.content = r.content ++ bytes) ∧ (b = false → r'.content = r.content ∧ bytes = []) :=
+  xpush_spec r h bytes
+
+/-- C++ `io::queue::unshift` -/
+theorem cxx_unshift_prepends (r : Ring) (h : r.WF) (bytes : List Byte) :
+    ∃ r' b, r.xunshift bytes = .ok (r', b) ∧ r'.WF ∧
+      (b = true → r'.content = bytes ++ r.content) ∧ (b = false → r'.content = r.content ∧ bytes = []) :=
+  xunshift_spec r h bytes
+
 -- non-vacuity: a wrapped ring (capacity 4, offset 3, content "abc" = 1 byte at the end + 2 at the start)
 example : (Ring.make 4 3 [97, 98, 99]).WF ∧ (Ring.make 4 3 [97, 98, 99]).content = [97, 98, 99]
     ∧ (Ring.make 4 3 [97, 98, 99]).store = [98, 99, 0, 97] := by
